@@ -79,6 +79,8 @@ PHASES = {
         {"pkg": "e1", "test": "TestC06Pool", "phase": "C06/allocator-states"},
         {"pkg": "e4", "test": "TestC20Schedules", "phase": "C06/schedules",
          "env": {"VERIF_E4_PROPERTY": "C06", "VERIF_E4_FILTER": "idpool"}},
+        # the writer-side clause (identifiers of outbound messages released on every path): same scripts as C03
+        {"pkg": "e2", "test": "TestC03Retransmission", "phase": "C03/retransmission"},
     ],
     "C19": [
         {"pkg": "e1", "test": "TestC19Topics", "phase": "C19/topics-store"},
